@@ -82,33 +82,43 @@ func (t *refTerm) put(g string, w int) {
 		return
 	}
 	row := t.grid[t.row]
-	// overwriting one half of a wide glyph leaves the other half terminal-specific
-	if row[t.col].cont && t.col > 0 {
-		row[t.col-1].defined = false
-		row[t.col-1].w = 1
+	if w < 1 {
+		w = 1
 	}
-	if row[t.col].w == 2 && t.col+1 < t.w {
-		row[t.col+1].defined = false
-		row[t.col+1].cont = false
-	}
-	if w == 2 && t.col+1 >= t.w {
-		// wide glyph in the last column: terminal-specific
+	if t.col+w > t.w {
+		// a glyph wider than the rest of the row: terminal-specific
+		t.breakGlyph(row, t.col)
 		row[t.col] = rtCell{defined: false}
 		t.pending = true
 		return
 	}
+	// overwriting part of a wide glyph leaves its other cells terminal-specific
+	for k := t.col; k < t.col+w; k++ {
+		t.breakGlyph(row, k)
+	}
 	row[t.col] = rtCell{g: g, w: w, st: t.pen, defined: true}
-	if w == 2 {
-		if row[t.col+1].w == 2 && t.col+2 < t.w {
-			row[t.col+2].defined = false
-			row[t.col+2].cont = false
-		}
-		row[t.col+1] = rtCell{g: "", w: 0, st: t.pen, defined: true, cont: true}
+	for k := 1; k < w; k++ {
+		row[t.col+k] = rtCell{g: "", w: 0, st: t.pen, defined: true, cont: true}
 	}
 	t.col += w
 	if t.col >= t.w {
 		t.col = t.w - 1
 		t.pending = true
+	}
+}
+
+// breakGlyph: the cell at col is about to be overwritten; if it is part of a glyph wider
+// than one cell, every other cell of that glyph becomes terminal-specific.
+func (t *refTerm) breakGlyph(row []rtCell, col int) {
+	h := col
+	for h > 0 && row[h].cont {
+		h--
+	}
+	if !row[h].defined || row[h].w < 2 || col >= h+row[h].w {
+		return
+	}
+	for k, end := h, h+row[h].w; k < end && k < t.w; k++ {
+		row[k] = rtCell{defined: false, w: 1}
 	}
 }
 
@@ -491,7 +501,8 @@ func rtDecode(b []byte) (rune, int) {
 // ---------------------------------------------------------------------------------------
 
 type verifConsole struct {
-	log []byte
+	log  []byte
+	w, h int // reported window size (0: 4x3)
 }
 
 func (c *verifConsole) Read(p []byte) (int, error)       { return 0, nil }
@@ -505,6 +516,9 @@ func (c *verifConsole) SetRaw() error                    { return nil }
 func (c *verifConsole) DisableEcho() error               { return nil }
 func (c *verifConsole) Reset() error                     { return nil }
 func (c *verifConsole) Size() (console.WinSize, error) {
+	if c.w > 0 {
+		return console.WinSize{Height: uint16(c.h), Width: uint16(c.w)}, nil
+	}
 	return console.WinSize{Height: 3, Width: 4}, nil
 }
 
